@@ -14,7 +14,7 @@ path = os.path.join(HERE, "DESIGN.md")
 s = open(path).read()
 head = "| id | property | what it needs to manifest | caught by | status |\n|---|---|---|---|---|\n"
 a = s.index(head) + len(head)
-b = s.index("\n## 8.", a)
+b = s.index("\n### 7.3", a)
 s = s[:a] + "\n".join(rows) + "\n" + s[b:]
 open(path, "w").write(s)
 missed = sum(1 for m in metas if "missed at first" in m.get("status", "").lower())
